@@ -45,6 +45,9 @@ var xUnits = []xUnit{
 	{Name: "tr_checkActive", Dir: "tars", Func: "AdapterProxy.checkActive", Recv: true,
 		Oracles: map[string]xOracle{"time.Now().Unix()": {"now_", "Z"}, "c.tarsClient.ReConnect()": {"reconnect_err", "bool"},
 			"(float32(c.failCount) / float32(c.sendCount)) >= failRatio": {"ratio_ge", "bool"}}},
+	// ... and its scaling loop: every static weight scaled to the range, positive ones summed and recorded
+	{Name: "tr_BSWL_scale", Dir: "tars/selector", Func: "BuildStaticWeightList", From: "var weightToId []pair", To: "for idx, node := range endpoints {",
+		Outs: []string{"totalWeight", "weightToId", "idToWeight", "staticWeightRouterCache"}},
 	// the end of endpoint.Parse: from the flag variables to the Endpoint value (without its cache key)
 	{Name: "tr_Parse_build", Dir: "tars/util/endpoint", Func: "Parse", From: "isTcp := int32(0)", To: "e := Endpoint{",
 		Outs: []string{"e"}, After: []string{"e.Key = e.String()", "return e"}},
@@ -354,6 +357,10 @@ func xlateUnit(root string, u *xUnit, ld *xLoader, records map[string]*types.Nam
 		var term string
 		term, stateT, _ = x.state(fd, outs)
 		final = "Next " + term
+	}
+	x.body = body
+	if len(body) > 0 {
+		x.lo, x.hi = body[0].Pos(), body[len(body)-1].End()
 	}
 	text := x.block(body, final, 2)
 	pos := x.fset.Position(fd.Pos())
